@@ -297,14 +297,17 @@ pub struct Footprint {
 }
 
 impl Footprint {
-    pub fn at_marker(&mut self, mem: &Mem, shape: &HeapShape, consecutive: bool) -> Res<()> {
+    pub fn at_marker(&mut self, mem: &Mem, shape: &HeapShape, consecutive: bool, stride: u64) -> Res<()> {
+        // when boundaries are sampled (large heaps) the peak of reachable blocks is known only up to
+        // what the unsampled statements in between can allocate (at most 4 blocks each)
+        let slack = SLACK + 4 * (stride as usize - 1);
         self.peak_r = self.peak_r.max(shape.r);
         let fb = ((shape.frontier - mem.heap_base) / BLOCK) as usize;
         self.max_frontier_blocks = self.max_frontier_blocks.max(fb);
-        if fb > self.peak_r + SLACK {
+        if fb > self.peak_r + slack {
             return Err(Viol::new(
                 Class::Footprint,
-                format!("frontier at {} blocks but at most {} blocks were ever simultaneously reachable (slack {})", fb, self.peak_r, SLACK),
+                format!("frontier at {} blocks but at most {} blocks were ever simultaneously reachable (slack {})", fb, self.peak_r, slack),
             ));
         }
         if self.prev_frontier != 0 && shape.frontier > self.prev_frontier && consecutive {
